@@ -19,6 +19,8 @@ func (w *world) opts(mode string, same bool) []tensor.FuncOpt {
 		o = append(o, tensor.WithReuse(w.ts[atoi(f[1])]))
 	case "incr":
 		o = append(o, tensor.WithIncr(w.ts[atoi(f[1])]))
+	case "both": // both.<reuse>.<incr>
+		o = append(o, tensor.WithReuse(w.ts[atoi(f[1])]), tensor.WithIncr(w.ts[atoi(f[2])]))
 	}
 	if same {
 		o = append(o, tensor.AsSameType())
